@@ -216,6 +216,29 @@ def run(ctx):
                     n_p += 1
                     ok = isinstance(st, ast.Assign) and isinstance(val, ast.Call) and isinstance(val.func, ast.Attribute) and ((val.func.attr in ("batch_evaluate_log_prior", "log_prior") and val.args and src(val.args[0]) == arr and "model" in src(val.func.value)) or (val.func.attr == "compute_weights" and any(k.arg == "return_log_prior" for k in val.keywords) and src(val.args[0]) == arr))
                     ctx.ob("R-WRITERS", "C05.4", f, "a stored log-prior is the model's prior evaluator applied to the same array", ok, f"`{src(st)[:90]}`", node=st)
+    # a log-prior that reaches the samples through compute_weights(return_log_prior=True) is the model's value, untouched:
+    # the second element of every returned pair is a local bound once to model.batch_evaluate_log_prior(<points>) and neither
+    # it nor anything that may share its buffer (asarray / view / reshape / plain alias) is modified in place
+    rj = prog.cls("nessai.proposal.rejection:RejectionProposal")
+    cwf = rj.methods["compute_weights"]
+    ctx.analysed_functions.add(cwf.qual)
+    pts = cwf.params()[1]
+    pairs_ = [r.value for r in walk_no_nested(cwf.node) if isinstance(r, ast.Return) and isinstance(r.value, ast.Tuple) and len(r.value.elts) == 2]
+    okp, whyp = bool(pairs_), ""
+    for tv in pairs_:
+        pn = tv.elts[1]
+        if not isinstance(pn, ast.Name):
+            okp, whyp = match_expr(f"self.model.batch_evaluate_log_prior({pts})", pn) is not None, f"second element `{src(pn)}`"
+            continue
+        binds_ = [n for n in walk_no_nested(cwf.node) if isinstance(n, ast.Assign) and any(isinstance(t, ast.Name) and t.id == pn.id for t in n.targets)]
+        if not (len(binds_) == 1 and match_expr(f"self.model.batch_evaluate_log_prior({pts})", binds_[0].value) is not None):
+            okp, whyp = False, f"`{pn.id}` is not bound exactly once to model.batch_evaluate_log_prior({pts})"
+            continue
+        shared = may_alias(cwf.node, pn.id)
+        touched = sorted(n_ for n_ in shared if modified_in_place(cwf.node, n_))
+        if touched:
+            okp, whyp = False, f"`{pn.id}` shares its buffer with {sorted(shared)}; modified in place: {touched}"
+    ctx.ob("R-WRITERS", "C05.4", cwf, "the log-prior handed back by compute_weights(return_log_prior=True) is the model's prior of the same points, never modified in place (directly or through an alias)", okp, whyp)
     ctx.require(n_l >= 8 and n_p >= 5, f"too few logL/logP stores found ({n_l}, {n_p})")
     ctx.floor("C05.4", 14)
     # ---- C05.5 reading results does not change them ------------------------------------------------------
@@ -255,6 +278,64 @@ def run(ctx):
     ctx.assumptions += ["numeric equality on real runs and sample counts are not decided; only which state object each reported quantity is read from"]
 
 
+_ALIASING_CALLS = {"asarray", "asanyarray", "ascontiguousarray", "atleast_1d", "atleast_2d", "squeeze", "ravel", "reshape", "view", "transpose", "expand_dims", "broadcast_to", "array"}
+
+
+def may_alias(fnode, name):
+    """Names that may share the buffer of `name`: plain aliases and the results of numpy calls that return
+    their argument (or a view of it) when no conversion is needed. Transitive."""
+    shared = {name}
+    changed = True
+    while changed:
+        changed = False
+        for n in walk_no_nested(fnode):
+            if not (isinstance(n, ast.Assign) and len(n.targets) == 1 and isinstance(n.targets[0], ast.Name)):
+                continue
+            t, v = n.targets[0].id, n.value
+            base = None
+            if isinstance(v, ast.Name):
+                base = v.id
+            elif isinstance(v, ast.Call):
+                f_ = v.func
+                fname = f_.attr if isinstance(f_, ast.Attribute) else (f_.id if isinstance(f_, ast.Name) else None)
+                if fname in _ALIASING_CALLS:
+                    if fname == "array" and not any(k.arg == "copy" and isinstance(k.value, ast.Constant) and k.value.value is False for k in v.keywords):
+                        pass
+                    elif v.args and isinstance(v.args[0], ast.Name):
+                        base = v.args[0].id
+                    elif isinstance(f_, ast.Attribute) and isinstance(f_.value, ast.Name) and f_.value.id not in ("np", "numpy"):
+                        base = f_.value.id
+            elif isinstance(v, ast.Attribute) and v.attr == "T" and isinstance(v.value, ast.Name):
+                base = v.value.id
+            elif isinstance(v, ast.Subscript) and isinstance(v.value, ast.Name) and isinstance(v.slice, ast.Slice):
+                base = v.value.id
+            if base in shared and t not in shared:
+                shared.add(t)
+                changed = True
+            if t in shared and base is not None and base not in shared:
+                shared.add(base)
+                changed = True
+    return shared
+
+
+def modified_in_place(fnode, name):
+    for n in walk_no_nested(fnode):
+        if isinstance(n, ast.AugAssign) and isinstance(n.target, ast.Name) and n.target.id == name:
+            return True
+        if isinstance(n, ast.Subscript) and isinstance(n.ctx, (ast.Store, ast.Del)):
+            b = n.value
+            while isinstance(b, ast.Subscript):
+                b = b.value
+            if isinstance(b, ast.Name) and b.id == name:
+                return True
+        if isinstance(n, ast.Call):
+            if isinstance(n.func, ast.Attribute) and isinstance(n.func.value, ast.Name) and n.func.value.id == name and n.func.attr in ("fill", "sort", "put", "itemset", "resize", "partition", "clip") and (n.func.attr != "clip" or any(k.arg == "out" for k in n.keywords)):
+                return True
+            if any(k.arg == "out" and isinstance(k.value, ast.Name) and k.value.id == name for k in n.keywords):
+                return True
+    return False
+
+
 CLAIM = {
     "text": "Exhaustive provenance check over the finite configuration space: for each of the four (draw_iid_live, redrawn-samples) configurations of the importance sampler, and for the standard sampler, the property chains behind FlowSampler.logZ / logZ_error / nested_samples / the weights used to draw the posterior and behind the result-dictionary keys are expanded symbolically (property bodies are decision trees over three predicates) to canonical access paths, which must coincide and must not be None; every return of the standard loop hands back the objects the dictionary reports. Also decides the INS estimator definition (logsumexp(logL+logW) - log n in both the incremental state and the one-pass function, weights minus logZ, shift degree 0), the birth-likelihood lookup, and that every store into a logL / logP field is the model's evaluator applied to the same array (diagnostic-plot colour values are a reviewed exception). Found and repaired: with draw_iid_live=False the dictionary read a None state and the run failed while saving.",
     "note": "Decides which object each reported quantity is read from, not numeric equality on runs nor sample counts. The configuration predicates are tied by the constructor (checked).",
@@ -265,6 +346,7 @@ _F = "nessai/flowsampler.py"
 _N = "nessai/samplers/nestedsampler.py"
 _E = "nessai/evidence.py"
 MUTANTS = [
+    {"id": "prior-aliased-and-modified", "file": "nessai/proposal/rejection.py", "old": "        log_q = self.log_proposal(x)\n        log_w = log_p - log_q\n", "new": "        log_w = np.asarray(log_p, dtype=float)\n        log_w -= self.log_proposal(x)\n", "expect": "never modified in place"},
     {"id": "final-state-none-without-iid", "file": _I, "old": "        if self._final_samples is not None:\n            return self._final_samples.state\n        else:\n            return self._ordered_samples.state", "new": "        if self._final_samples is not None:\n            return self._final_samples.state\n        elif self.iid_samples is not None:\n            return self.iid_samples.state\n        else:\n            return None", "expect": "draw_iid_live=False"},
     {"id": "dict-evidence-from-training-set", "file": _I, "old": '        d["log_evidence"] = self.final_log_evidence\n', "new": '        d["log_evidence"] = self.training_samples.state.log_evidence\n', "expect": "result['log_evidence']"},
     {"id": "dict-error-from-other-state", "file": _I, "old": '        d["log_evidence_error"] = self.final_log_evidence_error', "new": '        d["log_evidence_error"] = self.training_samples.state.log_evidence_error', "expect": "result['log_evidence_error']"},
